@@ -1,6 +1,6 @@
 (* Properties_C06.v — arrays are bounds-checked total maps with independent elements.
    Only statements, `exact`, and Print Assumptions. *)
-From PE2 Require Import Arrays Lemmas_Arrays Eval Lemmas_DeepCopy Lemmas_HeapInv.
+From PE2 Require Import Arrays Lemmas_Arrays Eval Lemmas_DeepCopy Lemmas_HeapInv Run Lemmas_ConstLogic Lemmas_ConstThm.
 Local Open Scope Z_scope.
 
 (* an in-bounds index tuple addresses a cell inside the element vector *)
@@ -47,3 +47,11 @@ Print Assumptions C06_array_structure_is_fixed.
 Example C06_shape_example :
   all_valid [-3; 0; 4] [(-3, -1); (0, 0); (2, 4)] = true /\ linear [-3; 0; 4] [(-3, -1); (0, 0); (2, 4)] = 6.
 Proof. vm_compute. split; reflexivity. Qed.
+
+(* over the whole evaluator: the elements of every array are variables in their own right -- they exist, are not constants, and
+   have the array's element type (heap invariant of the program logic, kept by every block) *)
+Theorem C06_elements_are_variables_of_the_element_type : forall ped repl lim fuel bl c s a ar e, Inv s ->
+  nm_get a (s_arrs (snd (run_block ped repl lim fuel bl c s))) = Some ar -> In e (a_elems ar) ->
+  exists cl, nm_get e (s_cells (snd (run_block ped repl lim fuel bl c s))) = Some cl /\ c_const cl = false /\ c_type cl = a_type ar.
+Proof. exact array_elements_are_variables_of_the_element_type. Qed.
+Print Assumptions C06_elements_are_variables_of_the_element_type.
